@@ -45,6 +45,15 @@ RAW = ["\t\r\n", "x\t\r\n", "x\tq\t\r\n", "\t\t\t\t\r\n", "gemini://[/\r\n", "ge
        "/\t+\r\n", "/\t$\r\n", "/\t!\r\n", "/nonexistent\t!\r\n", "/nonexistent\t$\r\n", "/\tq\t+\r\n", "/\t\t$\r\n"]
 
 
+# request targets made of URL metacharacters (authority brackets, scheme, userinfo, port, query, fragment) in every URL-based
+# request syntax; the compatibility character U+2100 folds to 'a/c' when a URL parser NFKC-normalises the host
+_url_target = st.lists(st.sampled_from(["[", "]", ":", "/", "//", "?", "#", "@", "%", "%zz", "%00", "http:", "gemini:", "x", "h", "::1", "70",
+                                        "readme.txt", "\xe2\x84\x80", ".", "..", " ", "\\"]), min_size=1, max_size=7).map("".join)
+_url_target_line = st.builds(lambda pre, t, post: pre + t + post,
+                             st.sampled_from(["GET ", "HEAD ", "GET /wap", "gemini://", "gemini:", "h ", "GET http://", "GET //"]),
+                             _url_target, st.sampled_from([" HTTP/1.0\r\n\r\n", " 0\r\n", "\r\n", " HTTP/1.0\r\nHost: [\r\n\r\n"]))
+
+
 @st.composite
 def _request(draw):
     return {
@@ -52,7 +61,7 @@ def _request(draw):
         "mut": draw(st.sampled_from(MUTATIONS)),
         "form": draw(st.sampled_from(FORMS)),
         "raw": draw(st.one_of(st.none(), st.none(), st.none(), st.sampled_from(RAW),
-                              st.binary(max_size=30).map(world.u))),
+                              st.binary(max_size=30).map(world.u), _url_target_line)),
         "rawtls": draw(st.booleans()),
         "search": draw(st.one_of(st.none(), st.none(), st.sampled_from(["q", "a b", "\xff", ""]))),
         "bare": draw(st.sampled_from([False, False, True])),
